@@ -29,6 +29,26 @@ class FV:
     def __init__(self, fin, val, tag):
         self.fin, self.val, self.tag = fin, val, tag
 
+    # arithmetic / comparisons on a raw sample use its value (an arbitrary number when the sample is not finite)
+    def _v(self):
+        return _fv_as_value(self)
+
+    def __add__(self, o): return self._v() + (o._v() if isinstance(o, FV) else o)
+    __radd__ = __add__
+    def __sub__(self, o): return self._v() - (o._v() if isinstance(o, FV) else o)
+    def __rsub__(self, o): return (o._v() if isinstance(o, FV) else o) - self._v()
+    def __mul__(self, o): return self._v() * (o._v() if isinstance(o, FV) else o)
+    __rmul__ = __mul__
+    def __truediv__(self, o): return self._v() / (o._v() if isinstance(o, FV) else o)
+    def __rtruediv__(self, o): return (o._v() if isinstance(o, FV) else o) / self._v()
+    def __neg__(self): return -self._v()
+    def __abs__(self): return abs(self._v())
+    def __lt__(self, o): return self._v() < (o._v() if isinstance(o, FV) else o)
+    def __le__(self, o): return self._v() <= (o._v() if isinstance(o, FV) else o)
+    def __gt__(self, o): return self._v() > (o._v() if isinstance(o, FV) else o)
+    def __ge__(self, o): return self._v() >= (o._v() if isinstance(o, FV) else o)
+    __hash__ = object.__hash__
+
 
 class MetaNd(SymNd):
     """object array standing for a float array of dtype `fdtype` ('f8' or 'f4'); masked assignment a[mask] = v works element-wise
@@ -198,8 +218,8 @@ def ob_constructor(W, layout, N):
 
 
 def _fv_as_value(e):
-    # a sample that was never sanitised: its value is only meaningful when finite
-    return ite(e.fin, e.val, SR(ctx.fresh("nonfinite_value")))
+    # a sample that was never sanitised: its value is only meaningful when finite (one arbitrary symbol per sample otherwise)
+    return ite(e.fin, e.val, SR(z3.Real("nonfinite_value_%s" % "_".join(map(str, e.tag if isinstance(e.tag, tuple) else (e.tag,))))))
 
 
 def ob_copy_model(W):
